@@ -12,6 +12,7 @@ Helper lemmas live in `HvHydro/Lemmas/*.lean`.
 -/
 import HvHydro.Lemmas.Ops
 import HvHydro.Lemmas.Join
+import HvHydro.Lemmas.Keyed
 import HvHydro.Gen.Lowering
 import HvHydro.Model.ExpectedLowering
 
@@ -369,6 +370,87 @@ theorem program_eventually_deterministic (t : Term) (k : Kind) (hk : t.kind = so
           rw [aux_staticSide_flatten gDifference (by simp [gDifference]) (by simp [gDifference]) _ _ _ hlen hfl]
         · rw [it]
         · exact it.filter _
+  | joinLB a b iha ihb =>
+    simp only [Term.kind] at hk
+    cases hka : a.kind with
+    | none => simp [hka] at hk
+    | some ka =>
+      cases hkb : b.kind with
+      | none => cases ka <;> simp [hka, hkb] at hk
+      | some kb =>
+        have ia := iha ka hka hwf.1
+        have ib := ihb kb hkb hwf.2
+        simp only [hka, hkb] at hk
+        cases ka <;> simp at hk
+        obtain ⟨hc, rfl⟩ := hk
+        have hlen : (run a ins).length = (run b ins).length := by simp [aux_run_length]
+        have pa : (run a ins).flatten.Perm (spec a (wholeInput ins)) := by
+          simp only [Agrees] at ia
+          obtain ⟨os, hos, hfl⟩ := ia
+          rw [hos]; simp [hfl]
+        have pb : (run b ins).flatten.Perm (spec b (wholeInput ins)) := by
+          rcases hc with rfl | rfl | rfl <;> simp only [Agrees] at ib
+          · exact ib ▸ List.Perm.refl _
+          · exact ib ▸ List.Perm.refl _
+          · exact ib
+        simp only [Agrees, run, spec]
+        exact (batch_homomorphism_op_join _ _ hlen).trans (aux_joinL_perm _ _ _ _ pa pb)
+  | kgen init g t ih =>
+    simp only [Term.kind] at hk
+    cases hkt : t.kind with
+    | none => simp [hkt] at hk
+    | some kt =>
+      have iht := ih kt hkt hwf
+      simp only [hkt] at hk
+      cases kt <;> simp at hk <;> subst hk <;> exact aux_agrees_mealy _ _ _ _ iht
+  | entries t ih =>
+    simp only [Term.kind] at hk
+    cases hkt : t.kind with
+    | none => simp [hkt] at hk
+    | some kt =>
+      have iht := ih kt hkt hwf
+      simp only [hkt] at hk
+      cases kt <;> simp at hk
+      subst hk
+      simp only [Agrees, run, spec] at iht ⊢
+      rw [iht]
+  | kreduce f t ih =>
+    simp only [Term.kind] at hk
+    have hne' : run t ins ≠ [] := by
+      intro h; have := aux_run_length t ins; rw [h] at this; exact hne (List.eq_nil_of_length_eq_zero this.symm)
+    cases hkt : t.kind with
+    | none => simp [hkt] at hk
+    | some kt =>
+      have iht := ih kt hkt hwf
+      simp only [hkt] at hk
+      cases kt <;> simp at hk <;> subst hk <;> simp only [Agrees, run, spec] at iht ⊢ <;>
+        exact ⟨_, by rw [aux_accStatic_getLast _ _ _ _ hne', iht], List.Perm.refl _⟩
+  | kfoldN init f t ih =>
+    simp only [Term.kind] at hk
+    have hne' : run t ins ≠ [] := by
+      intro h; have := aux_run_length t ins; rw [h] at this; exact hne (List.eq_nil_of_length_eq_zero this.symm)
+    cases hkt : t.kind with
+    | none => simp [hkt] at hk
+    | some kt =>
+      have iht := ih kt hkt hwf.1
+      simp only [hkt] at hk
+      cases kt <;> simp at hk
+      subst hk
+      simp only [Agrees, run, spec] at iht ⊢
+      exact ⟨_, aux_accStatic_getLast _ _ _ _ hne', aux_kfold_perm init f hwf.2 _ _ iht⟩
+  | kreduceN f t ih =>
+    simp only [Term.kind] at hk
+    have hne' : run t ins ≠ [] := by
+      intro h; have := aux_run_length t ins; rw [h] at this; exact hne (List.eq_nil_of_length_eq_zero this.symm)
+    cases hkt : t.kind with
+    | none => simp [hkt] at hk
+    | some kt =>
+      have iht := ih kt hkt hwf.1
+      simp only [hkt] at hk
+      cases kt <;> simp at hk
+      subst hk
+      simp only [Agrees, run, spec] at iht ⊢
+      exact ⟨_, aux_accStatic_getLast _ _ _ _ hne', aux_kreduce_perm f hwf.2.1 hwf.2.2 _ _ iht⟩
   | smap f t ih =>
     simp only [Term.kind] at hk
     cases hkt : t.kind with
@@ -471,11 +553,49 @@ theorem compose_deterministic_union (a b : Term) (ka kb : Kind) (hka : a.kind = 
     Agrees .sN (run (.union a b) ins) (spec (.union a b) (wholeInput ins)) :=
   program_eventually_deterministic (.union a b) .sN (by simp [Term.kind, hka, hkb, hsa, hsb]) ⟨hwa, hwb⟩ ins hne
 
-/-- **closure under tee**: the lowered graph of a term is a function of the tick inputs, so every
-    consumer of a shared (`tee()`d) sub-term sees the same batches in the same ticks; a program using the
-    sub-term twice is the same as one teeing it -/
-theorem compose_deterministic_tee (t : Term) (ins : List TickIn) (c1 c2 : List Batch → List Batch)
-    (h : c1 = c2) : c1 (run t ins) = c2 (run t ins) := by rw [h]
+/-- non-vacuity of the hypotheses of `program_eventually_deterministic` on the operators added in review:
+    keyed limit -> keyed reduce, and keyed first observed through `entries` are well-kinded and well-formed -/
+example :
+    let kv3 : Val → Val := fun v => match v with | .int i => .pair (.int (i % 3)) (.int i) | v => v
+    (Term.kreduce (fun a _ => a) (.kgen (.int 0) (limitGen 2) (.map kv3 (.input 0)))).kind = some .ksing ∧
+    (Term.kreduce (fun a _ => a) (.kgen (.int 0) (limitGen 2) (.map kv3 (.input 0)))).WF ∧
+    (Term.entries (.kgen (.int 0) firstGen (.map kv3 (.input 0)))).kind = some .sN ∧
+    (Term.joinLB (.map kv3 (.const [.int 1])) (.map kv3 (.input 0))).kind = some .sN ∧
+    (Term.foldB (.int 0) (fun a _ => a) (.joinLB (.map kv3 (.const [.int 1])) (.map kv3 (.input 0)))).kind = none := by
+  refine ⟨rfl, ?_, rfl, rfl, rfl⟩
+  simp [Term.WF]
+
+/-- a keyed fold over a keyed stream with NoOrder values is well-kinded, and its well-formedness is exactly
+    the commutativity obligation of the safe API (here: addition) -/
+example :
+    let add : Val → Val → Val := fun a x => match a, x with | .int a, .int x => .int (a + x) | a, _ => a
+    (Term.kfoldN (.int 0) add (.union (.input 0) (.input 1))).kind = some .ksing := rfl
+
+/-! ### finding F282: `Stream::join` types a bounded ⋈ unbounded join as Bounded -/
+
+/-- the witness program: `source_iter([0,1,2]).map(kv3).join(in0.map(kv3))` counted with `fold` — typed
+    `Singleton<_, Bounded>` by the API, hence lowered to `fold_no_replay` and read with `into_stream()` -/
+def f282Witness : Term :=
+  let kv3 : Val → Val := fun v => match v with | .int i => .pair (.int (i % 3)) (.int i) | v => v
+  .foldB (.int 0) (fun a _ => match a with | .int a => .int (a + 1) | a => a)
+    (.joinLB (.map kv3 (.const [.int 0, .int 1, .int 2])) (.map kv3 (.input 0)))
+
+/-- what the API's `Bounded` claim for `bounded.join(unbounded)` would need: the stream read off the
+    "bounded" singleton (`into_stream()`) does not depend on the tick partition -/
+def JoinBoundedLeftTypedBoundedStatement : Prop :=
+  ∀ ins ins' : List TickIn, ins ≠ [] → ins' ≠ [] → (∀ i, wholeInput ins i = wholeInput ins' i) →
+    finalView .bsing (run f282Witness ins) = finalView .bsing (run f282Witness ins')
+
+/-- **F282 (known finding).** The claim is false on the code that exists: with `in0 = [2, 0]` in one tick
+    the count `2` is emitted once, split into two ticks `1` and then `2` are emitted.  (As the unbounded
+    unordered stream it really is — kind `sN` — the join itself is deterministic: case `joinLB` of
+    `program_eventually_deterministic`.) -/
+theorem joinBoundedLeft_typedBounded_refuted : ¬ JoinBoundedLeftTypedBoundedStatement := by
+  intro h
+  have := h [[[.int 2, .int 0]]] [[[.int 2]], [[.int 0]]] (by simp) (by simp)
+    (by intro i; cases i <;> simp [wholeInput, inBatch])
+  revert this
+  decide
 
 /-- (T) the lowering table extracted from the current `compile/ir/mod.rs` is the one the model was
     transcribed from -/
